@@ -83,7 +83,17 @@ def ext_tokens(cfg):
         t.append(f"strat={sp['name']},{sp['kind']}/{_strs(sp['cats'])}/{_strs(sp['excl'])}/{_lst(sp.get('edges') or [])}")
     for o in ob.get("observations", []):
         t.append(f"obs={o['name']},{o['when']},{o['filter']},{o['agg']},{o['mod']}/{_strs(o['add'])}/{_strs(o['exc'])}")
+    if cfg.get("dt"):
+        t += [f"dt={cfg['dt']['std']}", "dmods=" + _lists([[-1 if x is None else x for x in m] for m in cfg["dt"]["mods"]])]
     return t
+
+
+def show_clk(clk):
+    if not clk:
+        return None
+    if clk[0] == "error":
+        return "error:" + str(clk[1])
+    return f"{clk[0]}/" + (",".join(f"{r[0]}:{r[1]}:{r[2]}" for r in clk[1:]) or "-")
 
 
 def show_pvals(pv):
@@ -213,6 +223,14 @@ def ext_boundary():
     b.append(variant(pipe={"mode": 0, "src": 0, "den": 16, "keys": [0, 1], "edges": None, "rows": [r for r in tab2 if r[:2] != [1, 1]], "mods": MODS3}))
     b.append(variant(age={"bits": 3}, pipe={"mode": 0, "src": 0, "den": 16, "keys": [0, 1], "edges": [0, 3, 6, 8],
                                             "rows": [r for r in tab3 if r[:2] != [1, 0]], "mods": MODS3}))
+    # the same tracked simulants are asked in consecutive steps (no births, nobody leaves at first) while the machine moves
+    # everybody s0 -> s1 in between: the table must be read with the CURRENT state (categorical, then interpolated)
+    moving = [{"selfOk": False, "trans": [[1, [16, 16]]]}, {"selfOk": True, "trans": []}, {"selfOk": True, "trans": []}]
+    b.append(variant(pop=4, births=[], mortPhase=1, mortPrio=2, disPhase=1, disPrio=7, initW=[[16, 0, 0], [16, 0, 0]], states=moving,
+                     pipe={"mode": 0, "src": 0, "den": 16, "keys": [1], "edges": None, "rows": [[0, 0], [1, 16], [2, 8]], "mods": MODS3}))
+    b.append(variant(pop=4, births=[], mortPhase=0, disPhase=2, initW=[[16, 0, 0], [16, 0, 0]], states=moving, age={"bits": 2},
+                     pipe={"mode": 1, "src": 1, "den": 16, "keys": [1, 0], "edges": [0, 2, 4],
+                           "rows": full_table([1, 0], 3, [0, 2, 4], lambda c, bn: [0, 16, 8][c[0]]), "mods": PMODS3}))
     # refused at setup: a bin missing for one key group
     b.append(variant(age={"bits": 3}, pipe={"mode": 0, "src": 0, "den": 16, "keys": [0, 1], "edges": [0, 3, 6, 8],
                                             "rows": [r for r in tab3 if r[:3] != [0, 1, 1]], "mods": MODS3}))
@@ -237,6 +255,19 @@ def ext_boundary():
     b.append(variant(order=[0, 1, 2, 3], obs={"defaults": [], "strats": [sex_strat()], "observations": [observation("x", 3, 0, 0, ["nope"])]}))
     # configured but the observer component is not part of the simulation
     b.append(variant(order=[0, 1, 2], obs={"defaults": [], "strats": [sex_strat()], "observations": [observation("x", 3, 0, 0, ["sex"])]}))
+    # DateTimeClock in hours with per-simulant step modifiers: the events carry only the due simulants
+    dsched = [[0, 1, 0, 0], [0, 0, 0, 0], [1, 0, 0, 0], [0, 0, 0, 1], [0, 0, 0, 0], [0, 0, 1, 0]] + [[0, 0, 0, 0]] * 6
+    b.append(variant(start=96, step=6, stop=168, nSteps=64, order=[0, 1, 2, 7], births=dsched, dt={"std": 12, "mods": [[6, 18, None], [None, 30, 12]]}))
+    b.append(variant(start=96, step=6, stop=144, nSteps=64, order=[7, 2, 1, 0], births=dsched, keyCols=[1], dt={"std": 0, "mods": [[None, None, None]]}))     # nobody is asked anything: the minimum step
+    b.append(variant(start=120, step=12, stop=216, nSteps=64, order=[0, 7, 1, 2], births=[[0, 0, 1, 0]] * 3, keyCols=[],
+                     dt={"std": 30, "mods": [[36, 36, 36]]}))                                                        # everybody steps 36 h: the global step grows
+    b.append(variant(start=96, step=24, stop=240, nSteps=64, order=[0, 1, 2, 7], births=[[1, 0, 0, 0]] * 6, mortPhase=3, disPhase=2,
+                     dt={"std": 24, "mods": [[24, 48, 72], [60, 12, 0]]}))                                           # below the minimum / zero requests, non-multiples
+    b.append(variant(start=96, step=3, stop=120, nSteps=64, order=[0, 1, 2, 7], births=[[0, 2, 0, 0]] + [[0, 0, 0, 0]] * 7, pop=6,
+                     mortP=[[8, 8, 8], [8, 8, 8]], dt={"std": 6, "mods": [[3, 9, 15]]}))                             # untracked simulants keep their clocks
+    b.append(variant(start=96, step=6, stop=144, nSteps=64, order=[4, 0, 1, 5, 2, 7], births=dsched, age={"bits": 3},
+                     pipe={"mode": 0, "src": 0, "den": 16, "keys": [0, 1], "edges": [0, 3, 6, 8], "rows": tab3, "mods": MODS3},
+                     dt={"std": 12, "mods": [[12, 6, 18]]}))                                                         # with the value pipeline
     # everything together
     b.append(variant(order=[5, 0, 3, 1, 4, 2, 6], age={"bits": 3}, pop=8, mapSize=127,
                      pipe={"mode": 0, "src": 0, "den": 16, "keys": [1, 0], "edges": [1, 4, 7],
@@ -253,10 +284,14 @@ class Whole(Prop):
     driver = "Whole"
     technique = ("Lean 4 executable end-to-end model composed from the sub-models (SHA-1, MT19937, index map, streams, "
                  "state machine, events, clock) + theorems about the composition (run = iterated step, resume at any "
-                 "boundary, fresh labels, untracked rows frozen, draws in range, initial CRN attributes in closed form) + "
-                 "exact cell-by-cell correspondence with real SimulationContext runs after every step")
+                 "boundary, fresh labels, untracked rows frozen, draws in range, initial CRN attributes in closed form; the mortality "
+                 "probability = post(modifiers in registration order(source(own lookup row))) by composing the C14 and C15 models; "
+                 "stratified results of a whole run = sum over its observation events, each adding the aggregate over the simulants "
+                 "eligible at that moment, by composing the C16 model) + exact cell-by-cell correspondence (state table, index-map "
+                 "positions, pipeline value per asked simulant, results) with real SimulationContext runs after every step")
     partial = ("the model covers the probe components of vcheck/wholekit.py (every value exact in binary64) under a SimpleClock; "
-               "DateTimeClock, pipelines, lookup tables, results and per-simulant clocks are tied by C08/C10/C14/C15/C16, not here; "
+               "DateTimeClock, per-simulant clocks and rescale_post_processor are tied by C08/C10/C14, not here; one pipeline (the "
+               "mortality probability, source = one lookup table) and adding observations only; "
                "termination of the index map's collision loop is a hypothesis (fuel), sizes with few reachable positions are not generated")
     trusted_extra = ["vcheck/wholekit.py: every float the probe components compute is exact (powers of two, sixteenths, integers)"]
     n_quick = 56
@@ -264,7 +299,8 @@ class Whole(Prop):
     workers = 8
     case_timeout = 90
     rule = ("case = one configuration (seed, population 0-12, map size, clock, key columns, births per step and channel, "
-            "priorities, component order, mortality table, machine); run for real step by step, through run(), and with another "
+            "priorities, component order, mortality table, machine; opt-in: age column, lookup table + value pipeline with 0-3 "
+            "modifiers, observer with stratifications and observations); run for real step by step, through run(), and with another "
             "births schedule; non-trivial = at least one completed step with simulants, or a refusal that the model predicts")
 
     # ------------------------------------------------------------------ generation
@@ -360,7 +396,31 @@ class Whole(Prop):
             else:
                 cfg["mapSize"] = rng.choice(cands)
         self._gen_ext(rng, cfg, thorough)
+        if rng.random() < 0.15:
+            self._gen_dt(rng, cfg, thorough)
         return cfg
+
+    def _gen_dt(self, rng, cfg, thorough):
+        """turn the case into a DateTimeClock run with per-simulant step modifiers (hours of January 2021)"""
+        ns = len(cfg["states"])
+        step = rng.choice([3, 6, 6, 12, 24])
+        days = rng.choice([1, 1, 2, 2, 3]) if step <= 6 else rng.choice([2, 3, 4, 6])
+        start = rng.choice([96, 120, 144])
+        n_sched = (24 * days) // step
+        dens = rng.choice([0.05, 0.15, 0.3])
+        pool = [step, step, 2 * step, 3 * step, step // 2 or 1, 2 * step + step // 2, 5 * step, 0, None, None]
+        mods = [[rng.choice(pool) for _ in range(ns)] for _ in range(rng.choice([1, 1, 2]))]
+        cfg.update(start=start, step=step, stop=start + 24 * days, nSteps=64, pop=min(cfg["pop"], 8),
+                   births=[[(rng.randint(1, 2) if rng.random() < dens else 0) for _ in range(4)] for _ in range(max(0, n_sched + rng.choice([0, 0, -2, 1])))],
+                   dt={"std": rng.choice([0, 0, step, 2 * step, step + step // 2 or 1, 4 * step]), "mods": mods})
+        cfg["obs"] = None
+        cfg["order"] = [c for c in cfg["order"] if c != 3]
+        cfg["order"].insert(rng.randrange(len(cfg["order"]) + 1), 7)
+        if cfg["keyCols"]:
+            total = total_simulants(cfg)
+            lo = 2 * total + 3
+            cands = [p for p in PRIMES if lo <= p <= max(6 * total, 60)] or [p for p in PRIMES if p >= lo][:3]
+            cfg["mapSize"] = rng.choice(cands)
 
     def _gen_ext(self, rng, cfg, thorough):
         """the opt-in parts (about 60 % of the cases use at least one): age column, lookup table + value pipeline,
@@ -486,6 +546,7 @@ class Whole(Prop):
         obs["run_positions"] = obs2["positions"]
         obs["run_results"] = obs2["results"][-1] if obs2.get("results") else None
         obs["run_pvals"] = obs2["pvals"][-1] if obs2.get("pvals") else None
+        obs["run_clk"] = obs2["clk"][-1] if obs2.get("clk") else None
         # another scenario: different births, mortality, machine parameters -> the initial CRN attributes must not move
         import copy
         other = copy.deepcopy(cfg)
@@ -518,8 +579,10 @@ class Whole(Prop):
         clocks = obs["clocks"]
         ext = has_ext(cfg)
 
-        def diff(got, tab, clock, pos, res, pv):
-            """model reply vs implementation: `ok <clock> <rows> [<positions>] [<pipeline values> <results>]`"""
+        dtm = bool(cfg.get("dt"))
+
+        def diff(got, tab, clock, pos, res, pv, clk=None):
+            """model reply vs implementation: `ok <clock> <rows> [<positions>] [<pipeline values> <results>] [<clocks>]`"""
             g = got.split(" ")
             want = ["ok", str(clock), show_table(tab)]
             have = g[:3]
@@ -529,13 +592,17 @@ class Whole(Prop):
             if ext:
                 want += [show_pvals(pv), show_results(cfg, res)]
                 have = have + g[4:6]
-            if len(g) != (6 if ext else 4) and g[0] == "ok":
-                return " ".join(g), " ".join(want)
-            return (" ".join(have), " ".join(want)) if have != want else None
+            if dtm:
+                want.append(show_clk(clk))
+                have = have + g[-1:]
+            if len(g) != 4 + (2 if ext else 0) + (1 if dtm else 0) and g[0] == "ok":
+                return " ".join(g), " ".join(str(x) for x in want)
+            return (" ".join(have), " ".join(str(x) for x in want)) if have != want else None
         for i, (name, tab, pos) in enumerate(stages):
             if tab is None:
                 break
-            d = diff(replies[i], tab, clocks[i], pos, (obs.get("results") or [None] * (i + 1))[i], (obs.get("pvals") or [None] * (i + 1))[i])
+            d = diff(replies[i], tab, clocks[i], pos, (obs.get("results") or [None] * (i + 1))[i], (obs.get("pvals") or [None] * (i + 1))[i],
+                     (obs.get("clk") or [None] * (i + 1))[i] if dtm else None)
             if d:
                 out.append(f"stage {name}: model `{d[0][:600]}` != implementation `{d[1][:600]}`")
                 break
@@ -551,7 +618,8 @@ class Whole(Prop):
             if last != f"err {obs['run_error']['class']}":
                 out.append(f"run(): implementation raised {obs['run_error']['class']}, model `{last[:200]}`")
         elif obs["run_final"] is not None:
-            d = diff(last, obs["run_final"], obs["run_clock"], obs.get("run_positions"), obs.get("run_results"), obs.get("run_pvals"))
+            d = diff(last, obs["run_final"], obs["run_clock"], obs.get("run_positions"), obs.get("run_results"), obs.get("run_pvals"),
+                     obs.get("run_clk"))
             if d:
                 out.append(f"run(): model `{d[0][:600]}` != implementation `{d[1][:600]}`")
         return out
@@ -575,6 +643,8 @@ class Whole(Prop):
         B = cfg["keyBits"]
         # clock: start, start + step, ...
         for k, c in enumerate(clocks):
+            if cfg.get("dt"):
+                break                                   # per-simulant clocks: see `_oracle_dt`
             if c != cfg["start"] + k * cfg["step"]:
                 fail("clock", f"clock after stage {k} is {c}, expected {cfg['start'] + k * cfg['step']}")
                 break
@@ -612,7 +682,8 @@ class Whole(Prop):
                     fail("creation-time", f"stage {k}: simulant {r[0]} has entrance {r[3]}, created at clock {want_ent}")
                 if k > 0 and r[1] == 0 and r[6] != clocks[k]:
                     fail("exit-time", f"stage {k}: newborn {r}")
-            want_n = cfg["pop"] if k == 0 else (sum(cfg["births"][k - 1]) if k - 1 < len(cfg["births"]) else 0)
+            sn = (k - 1) if not cfg.get("dt") or k == 0 else (clocks[k - 1] - cfg["start"]) // cfg["step"]
+            want_n = cfg["pop"] if k == 0 else (sum(cfg["births"][sn]) if 0 <= sn < len(cfg["births"]) else 0)
             if len(new_rows) != want_n:
                 fail("creation-count", f"stage {k}: {len(new_rows)} simulants created, schedule says {want_n}")
             prev = tab
@@ -666,6 +737,8 @@ class Whole(Prop):
         if obs["other_init"] != obs["init"]:
             fail("initial-population-depends-on-scenario", f"{show_table(obs['init'])[:300]} vs {show_table(obs['other_init'])[:300]}")
         self._oracle_ext(cfg, obs, tabs, clocks, fail)
+        if cfg.get("dt"):
+            self._oracle_dt(cfg, obs, tabs, clocks, fail)
         if err is None and obs["run_error"] is None and obs["steps"] and has_ext(cfg):
             if obs.get("run_results") != (obs.get("results") or [None])[-1]:
                 fail("run-differs-from-steps", f"results after run(): {show_results(cfg, obs.get('run_results'))[:300]}; step by step: "
@@ -704,6 +777,52 @@ class Whole(Prop):
         for m, w in zip(mods, ws):
             v = v * w if m["kind"] == 0 else (v + w if m["kind"] == 1 else w)
         return v
+
+    def _oracle_dt(self, cfg, obs, tabs, clocks, fail):
+        """per-simulant clocks (C10's statements on the composed run): nobody is skipped, nobody is updated early"""
+        clk = obs.get("clk") or []
+        mn = cfg["step"]
+        std = cfg["dt"]["std"] or mn
+        for k in range(len(tabs)):
+            if k >= len(clk) or not clk[k]:
+                break
+            if clk[k][0] == "error":
+                fail("clock-unreadable", f"stage {k}: {clk[k]}")
+                break
+            now = clocks[k]
+            sims = {r[0]: (r[1], r[2]) for r in clk[k][1:]}
+            if sorted(sims) != [r[0] for r in tabs[k]]:
+                fail("simulant-lost", f"stage {k}: clocks for {sorted(sims)}, table has {[r[0] for r in tabs[k]]}")
+                break
+            if sims and clk[k][0] != min(n for n, _ in sims.values()) - now:
+                fail("event-time-not-earliest", f"stage {k}: global step {clk[k][0]}, earliest next-event time {min(n for n, _ in sims.values())}, clock {now}")
+            if any(n <= now for n, _ in sims.values()):
+                fail("next-event-time-passed", f"stage {k}: clock {now}, next-event times {sorted(n for n, _ in sims.values())}")
+            if k == 0:
+                continue
+            prev = {r[0]: (r[1], r[2]) for r in clk[k - 1][1:]}
+            if now != clocks[k - 1] + clk[k - 1][0]:
+                fail("clock-not-advanced-to-event-time", f"stage {k}: clock {clocks[k - 1]} + global step {clk[k - 1][0]} != {now}")
+            before = {r[0]: r for r in tabs[k - 1]}
+            for r in tabs[k]:
+                lab = r[0]
+                nxt, stp = sims[lab]
+                due = lab not in prev or prev[lab][0] <= now          # newborns get the event time as their next-event time
+                if lab in prev and prev[lab][0] > now:
+                    # not due during the step that ended at `now`: no listener saw the simulant, the clock left it alone
+                    if before[lab] != r:
+                        fail("updated-early", f"stage {k}: simulant {lab} was not due (next event {prev[lab][0]} > {now}) but its row changed "
+                                              f"{before[lab]} -> {r}")
+                    if (nxt, stp) != prev[lab]:
+                        fail("stale-next-event-time", f"stage {k}: simulant {lab} not due, clock columns {prev[lab]} -> {(nxt, stp)}")
+                if due:
+                    asked = [m[r[5]] for m in cfg["dt"]["mods"] if m[r[5]] is not None]
+                    req = min(asked) if asked else std
+                    q = req // mn
+                    want = (1 if q == 0 else q) * mn
+                    if stp != want or nxt != now + want:
+                        fail("step-size-rule", f"stage {k}: simulant {lab} (state {r[5]}) was due at {now}: step {stp}, next {nxt}; the modifiers ask "
+                                               f"{asked or 'nothing'} (standard {std}, minimum {mn}) -> {want}")
 
     def _oracle_ext(self, cfg, obs, tabs, clocks, fail):
         from fractions import Fraction
@@ -794,6 +913,16 @@ class Whole(Prop):
                         if not lower <= total <= upper:
                             fail("results-tracked-bounds", f"stage {k}: observation {o['name']} (tracked == True) counted {total}; of the event's "
                                                            f"simulants {upper} were tracked before the step and {lower} after it")
+                        # only the mortality listener untracks: called before the results manager's listener (earlier channel,
+                        # or the same channel with a priority below the manager's default 5; the manager registers first)
+                        # the count is the number still tracked after the step, otherwise the number tracked before it
+                        if 1 in cfg["order"]:
+                            mort_first = (cfg["mortPhase"], cfg["mortPrio"]) < (o["when"], 5)
+                            want = lower if mort_first else upper
+                            if total != want:
+                                fail("results-order-vs-mortality", f"stage {k}: observation {o['name']} (tracked == True, channel {o['when']}) counted "
+                                                                   f"{total}; the mortality listener (channel {cfg['mortPhase']}, priority {cfg['mortPrio']}) runs "
+                                                                   f"{'before' if mort_first else 'after'} the results manager's, so {want} were tracked")
                 if o["agg"] == 1 and due and o["filter"] == 0 and not excluded:
                     want = sum(r[3] for r in index_rows)
                     if total != want:
@@ -835,6 +964,17 @@ class Whole(Prop):
                 if any(k < len(cfg["births"]) and cfg["births"][k][ph] for k in range(len(obs["steps"]))):
                     t.append(f"births@{ph}")
         t += self._tags_ext(cfg, obs)
+        if cfg.get("dt"):
+            clk = [c for c in (obs.get("clk") or []) if c and c[0] != "error"]
+            t += ["clock:datetime", f"dt:modifiers:{len(cfg['dt']['mods'])}", f"dt:min-step:{cfg['step']}h",
+                  "dt:std:" + ("none" if not cfg["dt"]["std"] else "min" if cfg["dt"]["std"] == cfg["step"] else "other"),
+                  f"dt:steps:{'0' if len(obs.get('steps') or []) == 0 else '1-8' if len(obs['steps']) <= 8 else '9+'}"]
+            if any(c[0] > cfg["step"] for c in clk):
+                t.append("dt:global-step-grew")
+            if any(len({r[1] for r in c[1:]}) > 1 for c in clk):
+                t.append("dt:not-everyone-due-together")
+        else:
+            t.append("clock:simple")
         if obs.get("collisions"):
             t.append("hash-collision:resolved")
         elif cfg["keyCols"] and obs.get("collisions") == 0:
@@ -893,7 +1033,7 @@ class Whole(Prop):
             c = copy.deepcopy(cfg)
             c.update(kw)
             return c
-        if cfg["nSteps"] > 0:
+        if cfg["nSteps"] > 0 and not cfg.get("dt"):
             n = cfg["nSteps"] - 1
             yield v(nSteps=n, stop=cfg["start"] + cfg["step"] * n, births=cfg["births"][:n])
         if cfg["pop"] > 0:
@@ -918,7 +1058,7 @@ class Whole(Prop):
                 yield v(states=s)
         if cfg.get("addSeed") is not None:
             yield v(addSeed=None)
-        if cfg["start"] != 0:
+        if cfg["start"] != 0 and not cfg.get("dt"):
             yield v(start=0, stop=cfg["stop"] - cfg["start"])
         if cfg["keyCols"]:
             yield v(keyCols=[])
